@@ -117,7 +117,10 @@ class ProcessTable(Model):
         if method == "exit_lock_acquire":
             return [Outcome(bit(xl, i, n), {f"{nm}.exitlock": xl & ~onehot(i, n)}, True, None, "ok")]
         if method == "new_process":
-            return [Outcome(z3.ULT(nxt, BV(n)), {f"{nm}.next": nxt + 1}, ("rec", "Process", {"i": nxt}), None, "ok")]
+            # ghost: spawning must happen while the management lock is held (by somebody)
+            return [Outcome(z3.ULT(nxt, BV(n)), {f"{nm}.next": nxt + 1,
+                                                 f"{nm}.spawned_unlocked": z3.Or(S[f"{nm}.spawned_unlocked"], S["mgmt.sl.v"] != 0)},
+                            ("rec", "Process", {"i": nxt}), None, "ok")]
         if method == "set_exit_lock":
             return [Outcome(T, {}, None, None, "ok")]
         if method == "start":
@@ -137,6 +140,37 @@ class ProcessTable(Model):
         if method in ("die", "kill"):
             return [Outcome(T, {f"{nm}.alive": alive & ~onehot(i, n)}, None, None, "ok")]
         raise KeyError(method)
+
+
+class WaitModel(Model):
+    """multiprocessing.connection.wait([result reader, wakeup reader] + sentinels): blocks until something is
+    ready and reports everything that is ready (select semantics)."""
+    METHODS = {"wait": []}
+
+    def __init__(self, S, n):
+        self.n = n
+
+    def result_type(self, method):
+        return ("rec", "Ready", {"res": "bool", "wake": "bool", "sent": "int"})
+
+    def outcomes(self, method, args, kwargs, t, S):
+        ws = args[0]
+        if not (isinstance(ws, tuple) and ws[0] == "tuple" and ws[1][0] == "waitset"):
+            raise ValueError(f"wait() on {ws!r}")
+        objs = [o[1] for o in ws[1][1][1]]
+        mask = ws[1][2]
+        res = S["resq.pipe.n"] != 0 if "resq.r" in objs else z3.BoolVal(False)
+        wake = S["wakeup.pipe.n"] != 0 if "wakeup.r" in objs else z3.BoolVal(False)
+        dead = zk(mask) & ~S["ptable.alive"]
+        return [Outcome(z3.Or(res, wake, dead != 0), {}, ("rec", "Ready", {"res": res, "wake": wake, "sent": dead}), None, "ready")]
+
+
+class NoopModel(Model):
+    def __init__(self, methods):
+        self.METHODS = {m: [] for m in methods}
+
+    def outcomes(self, method, args, kwargs, t, S):
+        return [Outcome(T, {}, None, None, "ok")]
 
 
 class ExecSlice:
@@ -171,7 +205,8 @@ class ExecSlice:
         # result pipe: messages (k: 0 result item, 1 pid, 2 remote traceback; a: work id / pid; e: has exception)
         self.rpipe = PipeState("resq.pipe", S, 2, fields=[("k", "int"), ("a", "int"), ("e", "bool")])
         O["resq.r"] = {"model": ConnModel(self.rpipe, "Msg")}
-        O["resq"] = {"attrs": {"_reader": ObjRef("resq.r")}}
+        O["resq"] = {"attrs": {"_reader": ObjRef("resq.r")}, "model": NoopModel(["close"])}
+        O["waiter"] = {"model": WaitModel(S, n_workers)}
         # flags
         O["flags"] = {"cls": "_ExecutorFlags",
                       "model": FieldsModel("flags", S, {"shutdown": ("bool", None), "broken": (("ref", "bpe"), None),
@@ -201,7 +236,7 @@ class ExecSlice:
                                 "pending_work_items": ObjRef("pending"), "running_work_items": ObjRef("running"),
                                 "_maxsize": callq_cap}}
         S.declare("weakref.dead", "bool", None)
-        O["mt"] = {"cls": "_ExecutorManagerThread",
+        O["mt"] = {"cls": "_ExecutorManagerThread", "model": NoopModel(["start", "join"]),
                    "attrs": {"thread_wakeup": ObjRef("wakeup"), "shutdown_lock": ObjRef("shutdown_lock"),
                              "executor_flags": ObjRef("flags"), "processes": ObjRef("processes"),
                              "call_queue": ObjRef("callq"), "result_queue": ObjRef("resq"),
@@ -218,10 +253,14 @@ class ExecSlice:
         O["obs"] = {"model": self.obs}
         self.comp = comp = Compiler(self.ct, O, opaque_calls=["mp.util.debug", "mp.util.info", "warnings.warn",
                                                               "traceback.format_exception", "LOGGER.critical",
-                                                              "util.debug", "util.info"])
+                                                              "util.debug", "util.info", "sleep",
+                                                              "get_exitcodes_terminated_worker",
+                                                              "self._start_executor_manager_thread"])
         comp.unroll = {"pending": n_ids, "processes": n_workers}
         comp.globals = {"_global_shutdown": ("c", False), "_CURRENT_DEPTH": ("c", 0), "_process_worker": ("c", "<worker>"),
-                        "sys": ("o", "sysmod"), "queue": ("o", "queuemod"), "struct": ("o", "structmod")}
+                        "sys": ("o", "sysmod"), "queue": ("o", "queuemod"), "struct": ("o", "structmod"),
+                        "wait": ("prim", "waiter", "wait"), "kill_process_tree": ("prim", "ptable", "kill")}
+        comp.ref_exc = {"bpe": "BrokenProcessPool"}
         O["sysmod"] = {"attrs": {"platform": "linux"}}
         O["queuemod"] = {"attrs": {"Empty": ("type", "Empty"), "Full": ("type", "Full")}}
         O["structmod"] = {"attrs": {"error": ("type", "struct.error")}}
@@ -251,8 +290,14 @@ class ExecSlice:
         c.rec_attrs[("Msg", "__isinstance__")] = lambda f, ty: (
             ("cmp", "==", f["k"], ("c", 1)) if ty == ("c", ("type", "int")) else
             ("cmp", "==", f["k"], ("c", 2)) if ty == ("c", ("type", "_RemoteTraceback")) else _unsup(f"isinstance(msg, {ty})"))
+        c.rec_attrs[("CallItem", "__isinstance__")] = lambda f, ty: ("c", ty == ("c", ("type", "_CallItem")))
+        c.rec_attrs[("Err", "__isinstance__")] = lambda f, ty: f["big"] if ty == ("c", ("type", "struct.error")) else _unsup(f"isinstance(err, {ty})")
+        c.rec_attrs[("Ready", "__contains__")] = lambda f, a: (
+            f["res"] if a == ("o", "resq.r") else f["wake"] if a == ("o", "wakeup.r") else _unsup(f"{a} in ready"))
         # processes
         c.rec_attrs[("Process", "pid")] = lambda f: f["i"]
+        c.rec_attrs[("Process", "sentinel")] = lambda f: ("c", "<sentinel>")
+        c.rec_attrs[("Process", "exitcode")] = lambda f: ("c", "<exitcode>")
         c.rec_attrs[("Process", "name")] = lambda f: ("c", "<name>")
         c.rec_attrs[("Process", "_worker_exit_lock")] = lambda f: ("rec", "ExitLock", {"i": f["i"]})
         c.rec_methods[("Process", "set:_worker_exit_lock")] = ("ptable", "set_exit_lock", lambda f: [f["i"]])
@@ -264,6 +309,7 @@ class ExecSlice:
         c.ctors["_CallItem"] = lambda a, k: ("rec", "CallItem", {"i": a[0]})
         c.ctors["_WorkItem"] = lambda a, k: ("rec", "WorkItem", {"i": a[0][2]["i"]})
         c.ctors["_RemoteTraceback"] = lambda a, k: ("c", "<remote traceback>")
+        c.ctors["_ExecutorManagerThread"] = lambda a, k: ("o", "mt")
         for name, tag in EXC_TAGS.items():
             c.ctors[name] = (lambda tag: lambda a, k: ("rec", "Exc", {"t": ("c", tag), "?": ("c", True)}))(tag)
         self.comp.globals["Future"] = ("prim", "futures", "alloc")
@@ -289,7 +335,10 @@ class ExecSlice:
             if f["k"] == 2:
                 return pe._RemoteTraceback("tb")
             return pe._ResultItem(int(f["a"]), exception=(ValueError("task failed") if f["e"] else None), result="<value>")
-        return {"Msg": msg}
+        import struct
+        return {"Msg": msg,
+                "CallItem": lambda w, f: pe._CallItem(int(f["i"]), len, (), {}),
+                "Err": lambda w, f: struct.error("too large") if f["big"] else ValueError("cannot pickle")}
 
     @property
     def from_python(self):
